@@ -117,6 +117,11 @@ type EngineBackend struct {
 	Metadata map[string]string // metric -> type
 	mu       sync.Mutex
 	Queries  int
+	// OnQuery, when set, runs before every answer with the instant the request arrived: a server
+	// keeps scraping while it is being asked, so the owner can bring the database up to that instant.
+	// Answers are then computed one at a time.
+	OnQuery func(now time.Time)
+	qmu     sync.Mutex
 }
 
 func NewEngineBackend(db *MemDB) *EngineBackend {
@@ -163,7 +168,16 @@ func metricJSON(ls labels.Labels) string {
 
 const statsJSON = `"stats":{"timings":{"evalTotalTime":0.001,"resultSortTime":0,"queryPreparationTime":0.0001,"innerEvalTime":0.0005,"execQueueTime":0.0001,"execTotalTime":0.001},"samples":{"totalQueryableSamples":10,"peakSamples":5}}`
 
-func (b *EngineBackend) Answer(req *Request, _ int) (int, string) {
+func (b *EngineBackend) Answer(req *Request, n int) (int, string) {
+	if b.OnQuery != nil {
+		b.qmu.Lock()
+		defer b.qmu.Unlock()
+		b.OnQuery(time.Now())
+	}
+	return b.answer(req, n)
+}
+
+func (b *EngineBackend) answer(req *Request, _ int) (int, string) {
 	b.mu.Lock()
 	b.Queries++
 	b.mu.Unlock()
